@@ -332,7 +332,7 @@ def r9_lme_drops_missing_visits(ctx):
     L = Canon(rn.node).lines(False, True)
     import re as _re
     text = "; ".join(L)
-    ok = _re.fullmatch(r"\$0 = \$0\.flatten\(\); (%\d+) = ~np\.isnan\(\$0\); \$0 = \$0\[\1\]; \$1 = \$1\[\1\]; return \(\$0, \$1\)", text) is not None
+    ok = _re.fullmatch(r"\$0 = \$0\.flatten\(\); (%\d+) = ~np\.isnan\(\$0\); (\$0 = \$0\[\1\]; \$1 = \$1\[\1\]|\$1 = \$1\[\1\]; \$0 = \$0\[\1\]); return \(\$0, \$1\)", text) is not None
     ctx.form("C06.R9", rn, rn.node, text, {text} if ok else set(), ["np.isnan($0)", "$0[", "$1["], "_remove_nans keeps the entries (and ages) where the outcome is not NaN",
              "_remove_nans no longer drops the missing outcomes together with their ages", construct="_remove_nans")
     f = ctx.ix.func(LP, "LMEPersonalizeAlgorithm._get_individual_random_effects_and_residuals", "C06.R9")
